@@ -58,7 +58,8 @@ From RU Require Import Base.Prelude Base.Utf8 Model.AsciiSet Gen.Tables Model.Pe
   Proofs.C02_Enc Proofs.C01_EqPath Proofs.C01_EqClasses Proofs.C01_EqAuth Proofs.C07_EqPathClass Proofs.C07_EqAuthClass
   Model.Host Spec.WhatwgHost Spec.WhatwgHostParse Proofs.C01_EqAuthSpec Proofs.C01_EqAuthModel Proofs.C01_EqClasses2 Proofs.C01_EqAuthHost
   Proofs.C07_EqAuthParse Proofs.C07_EqAuthHost
-  Proofs.C07_SpecHost Proofs.C07_EqHostname Proofs.C07_EqSeven.
+  Proofs.C07_SpecHost Proofs.C07_EqHostname Proofs.C07_EqSeven
+  Proofs.C02_AuthParts Proofs.C03_ReachParts Proofs.C01_EqRef Proofs.C07_EqRel Proofs.C07_SpecInv Proofs.C07_ParseExtra Proofs.C07_EqParseAll.
 
 (* ---------- the statement ---------- *)
 
@@ -798,6 +799,139 @@ Proof.
   cbv zeta. split; [repeat constructor; vm_compute; auto|]. split; [vm_compute; reflexivity|].
   split; [unfold host_agree; vm_compute; repeat split; try reflexivity; intros H; discriminate H|].
   split; [unfold host_extra; vm_compute; repeat split; try reflexivity; intros H; discriminate H|].
+  split; [cbn [seven_ops seven]; repeat split; repeat constructor; vm_compute; auto|].
+  eexists. split; [vm_compute; reflexivity|]. split; vm_compute; repeat split.
+Qed.
+
+(* ---------- every URL parsed outside Known_C01; seven setters ---------- *)
+
+(* from the relation of the C01 equivalence to the relation of the C07 equivalence: `related` (well-formed, same
+   ten API strings, same text before the fragment / the query, same cannot-be-a-base flag, spec_valid) gives
+   corrS, given what the ten strings do not determine (parse_extra: host text facts, clean username, "no host =>
+   no credentials, no port, not special" of the model record; port <= 65535 and a host that is the empty host or
+   has a non-empty text on the Standard's side), a scheme other than "file" and a host on special records.  The
+   layout flags of corr ("//", '@', "/." marker, an empty password) are read off the two equal serializations. *)
+Theorem C07_related_corrS : forall dbg shs u su,
+  related dbg shs u su -> parse_extra dbg shs u su ->
+  list_eqb (su_scheme su) str_file = false ->
+  (is_special su = true -> opt_is_some (su_host su) = true) ->
+  corrS dbg shs u su.
+Proof. exact related_corrS. Qed.
+Check C07_related_corrS : forall dbg shs u su,
+  related dbg shs u su -> parse_extra dbg shs u su ->
+  list_eqb (su_scheme su) str_file = false ->
+  (is_special su = true -> opt_is_some (su_host su) = true) ->
+  corrS dbg shs u su.
+Print Assumptions C07_related_corrS.
+
+(* two invariants of the Standard's basic URL parser (no base, no state override), for every input and host
+   parser: the host of the result is null, the empty host or a result of the host parser; the port is <= 65535 *)
+Theorem C07_spec_parse_invariants : forall shp input su,
+  spec_basic_url_parse shp input None = BDone su ->
+  match su_host su with
+  | None => True
+  | Some x => x = SEmpty \/ exists o s, host_parsing shp o s = Some x
+  end
+  /\ match su_port su with Some x => x <= 65535 | None => True end.
+Proof. exact spec_parse_uinv. Qed.
+Check C07_spec_parse_invariants : forall shp input su,
+  spec_basic_url_parse shp input None = BDone su ->
+  match su_host su with
+  | None => True
+  | Some x => x = SEmpty \/ exists o s, host_parsing shp o s = Some x
+  end
+  /\ match su_port su with Some x => x <= 65535 | None => True end.
+Print Assumptions C07_spec_parse_invariants.
+
+(* three facts about every record parse_url returns without a base for a scalar-value input whose scheme is not
+   "file" (beyond wf_b and the host text facts): the stored username has no byte of the userinfo percent-encode
+   set; a record with "//" and without host has no credentials, no port and a scheme that is not special *)
+Theorem C07_parse_model_extra : forall dbg hp hpo hd ovr, HostWf hp hpo hd ->
+  forall input u, usv_list input -> input_is_file input = false ->
+  parse_url dbg hp hpo hd ovr None input = POk u -> model_extra dbg u.
+Proof. exact parse_nobase_extra. Qed.
+Print Assumptions C07_parse_model_extra.
+
+(* the second clause of C07_statement with R := corrS for EVERY scalar-value input outside Known_C01 (special
+   schemes included): from C01_statement_all through C07_related_corrS.  Host functions: host_parse_ok =
+   host_fns_ok (the two sides agree) + HostWf (the text of a non-empty host is not empty, is led by neither ':' nor
+   '@' and does not end with '/') + the empty host serialises as the empty string *)
+Theorem C07_parse_all_corrS : forall dbg hp ho hd shp shs, host_parse_ok hp ho hd shp shs ->
+  forall input u, usv_list input -> known_c01 None input = 0 ->
+  parse_url dbg hp ho hd None None input = POk u ->
+  exists su, spec_basic_url_parse shp input None = BDone su /\ corrS dbg shs u su.
+Proof. exact parse_all_corrS. Qed.
+Check C07_parse_all_corrS : forall dbg hp ho hd shp shs, host_parse_ok hp ho hd shp shs ->
+  forall input u, usv_list input -> known_c01 None input = 0 ->
+  parse_url dbg hp ho hd None None input = POk u ->
+  exists su, spec_basic_url_parse shp input None = BDone su /\ corrS dbg shs u su.
+Print Assumptions C07_parse_all_corrS.
+
+(* C07_statement restricted to the seven setters, for EVERY URL parsed outside Known_C01: parse, then any sequence
+   of hostname / protocol / hash / search / username / password / port assignments with any values, each outside
+   Known_C07 - the ten API strings agree at the start and after every prefix *)
+Theorem C07_seven_all : forall dbg hp ho hd shp shs, host_parse_ok hp ho hd shp shs ->
+  forall input u ops, usv_list input -> known_c01 None input = 0 ->
+  parse_url dbg hp ho hd None None input = POk u ->
+  seven_ops ops -> outside_known dbg hp ho hd u ops ->
+  exists su, spec_basic_url_parse shp input None = BDone su
+    /\ model_api dbg u = Some (spec_api_list shs su)
+    /\ forall n, exists u' su',
+         model_run dbg hp ho hd u (firstn n ops) = Some u'
+         /\ spec_run shp su (firstn n ops) = Some su'
+         /\ model_api dbg u' = Some (spec_api_list shs su').
+Proof. exact seven_from_parse_all. Qed.
+Check C07_seven_all : forall dbg hp ho hd shp shs, host_parse_ok hp ho hd shp shs ->
+  forall input u ops, usv_list input -> known_c01 None input = 0 ->
+  parse_url dbg hp ho hd None None input = POk u ->
+  seven_ops ops -> outside_known dbg hp ho hd u ops ->
+  exists su, spec_basic_url_parse shp input None = BDone su
+    /\ model_api dbg u = Some (spec_api_list shs su)
+    /\ forall n, exists u' su',
+         model_run dbg hp ho hd u (firstn n ops) = Some u'
+         /\ spec_run shp su (firstn n ops) = Some su'
+         /\ model_api dbg u' = Some (spec_api_list shs su').
+Print Assumptions C07_seven_all.
+
+(* in the shape of C07_statement: ONE abstraction relation (corrS) with the three clauses, the parse clause now as
+   in C07_statement ("outside Known_C01").  Against C07_statement: seven setters instead of ten, host_parse_ok
+   instead of hosts_agree, inputs and values that are scalar-value strings. *)
+Theorem C07_statement_seven_all : forall dbg hp ho hd shp shs, host_parse_ok hp ho hd shp shs ->
+  exists R : url -> spec_url -> Prop,
+    (forall u su, R u su -> model_api dbg u = Some (spec_api_list shs su))
+    /\ (forall input u, usv_list input -> known_c01 None input = 0 ->
+          parse_url dbg hp ho hd None None input = POk u ->
+          exists su, spec_basic_url_parse shp input None = BDone su /\ R u su)
+    /\ (forall u su s v, R u su -> seven s = true -> usv_list v -> known_c07 u s v = 0 ->
+          exists u' su', model_set dbg hp ho hd s u v = Some u' /\ spec_step shp s su v = Some su' /\ R u' su').
+Proof. exact statement_seven_all. Qed.
+Check C07_statement_seven_all : forall dbg hp ho hd shp shs, host_parse_ok hp ho hd shp shs ->
+  exists R : url -> spec_url -> Prop,
+    (forall u su, R u su -> model_api dbg u = Some (spec_api_list shs su))
+    /\ (forall input u, usv_list input -> known_c01 None input = 0 ->
+          parse_url dbg hp ho hd None None input = POk u ->
+          exists su, spec_basic_url_parse shp input None = BDone su /\ R u su)
+    /\ (forall u su s v, R u su -> seven s = true -> usv_list v -> known_c07 u s v = 0 ->
+          exists u' su', model_set dbg hp ho hd s u v = Some u' /\ spec_step shp s su v = Some su' /\ R u' su').
+Print Assumptions C07_statement_seven_all.
+
+(* the hypothesis on the host functions can be met: every non-empty text that starts with neither ':' nor '@' and
+   does not end with '/' is a domain / an opaque host that serialises as itself *)
+Theorem C07_host_parse_ok_inhabited : host_parse_ok ok_hp ok_ho toy_hd ok_shp toy_shs.
+Proof. exact ok_host_parse_ok. Qed.
+Print Assumptions C07_host_parse_ok_inhabited.
+
+(* ... and a seven-setter history on a special start URL with these functions: " hTTps:\\u:p@H.x:0443/a/../b?q#f",
+   hostname := "y.z/w", port := "81", protocol := "ws", username := "", hash := "" *)
+Example C07_seven_all_inhabited :
+  let input := str " hTTps:\\u:p@H.x:0443/a/../b?q#f" in
+  let ops := [(QHostname, str "y.z/w"); (QPort, str "81"); (QProtocol, str "ws"); (QUsername, []); (QHash, [])] in
+  usv_list input /\ known_c01 None input = 0 /\ seven_ops ops
+  /\ exists u, parse_url true ok_hp ok_ho toy_hd None None input = POk u
+       /\ outside_known true ok_hp ok_ho toy_hd u ops
+       /\ option_map q_href (model_run true ok_hp ok_ho toy_hd u ops) = Some (str "ws://:p@y.z:81/b?q").
+Proof.
+  cbv zeta. split; [repeat constructor; vm_compute; auto|]. split; [vm_compute; reflexivity|].
   split; [cbn [seven_ops seven]; repeat split; repeat constructor; vm_compute; auto|].
   eexists. split; [vm_compute; reflexivity|]. split; vm_compute; repeat split.
 Qed.
